@@ -296,16 +296,36 @@ impl TypeAddress {
         }
 
         // should be a valid typescript identifier
-        let acc = format!(
-            "{}__{}",
-            to_valid_ts_identifier(&Self::min_file_path_that_differs(
-                &self.file,
-                &has_same_name
-            )),
-            self.name
-        );
+        let mangle = |addr: &TypeAddress, others: &[TypeAddress]| {
+            format!(
+                "{}__{}",
+                to_valid_ts_identifier(&Self::min_file_path_that_differs(&addr.file, others)),
+                addr.name
+            )
+        };
+        let acc = mangle(self, &has_same_name);
 
-        acc
+        // different paths can be mangled to the same identifier ("a/b.ts" and "a_b.ts"): number those in file order
+        let mut clashing: Vec<&TypeAddress> = has_same_name
+            .iter()
+            .filter(|other| {
+                let rest: Vec<TypeAddress> = has_same_name
+                    .iter()
+                    .filter(|it| it != other)
+                    .cloned()
+                    .chain(std::iter::once(self.clone()))
+                    .collect();
+                mangle(other, &rest) == acc
+            })
+            .collect();
+        if clashing.is_empty() {
+            return acc;
+        }
+        clashing.push(self);
+        clashing.sort();
+        clashing.dedup();
+        let rank = clashing.iter().position(|it| *it == self).unwrap_or(0);
+        format!("{}_{}", acc, rank)
     }
 }
 
